@@ -667,20 +667,25 @@ IntoMode(c, v, t) ==
     ELSE IF c.variants[v].fields[i].ty = t THEN "identity"
     ELSE "convert"
 
-IntoWellDesignated(c) ==
+\* IntoDesignated: every target resolves to exactly one field in every variant (what the macro checks);
+\* IntoWellDesignated adds the well-typedness of the run-time corpora: a field that needs a conversion has the
+\* probe type P (which converts into both targets).  The generic corpora (C11, C12) state their own typing.
+IntoDesignated(c) ==
   /\ NVariants(c) >= 1
   /\ Len(c.opts.targets) >= 1
   /\ \A v \in 1..NVariants(c) :
        /\ NFields(c, v) >= 1
-       /\ \A k \in DOMAIN c.opts.targets :
-            LET t == c.opts.targets[k] IN
-              /\ IntoField(c, v, t) # 0
-              /\ IntoMode(c, v, t) = "convert" => c.variants[v].fields[IntoField(c, v, t)].ty = "P"
+       /\ \A k \in DOMAIN c.opts.targets : IntoField(c, v, c.opts.targets[k]) # 0
        \* markers only for requested targets, each target at most once per field
        /\ \A i \in FieldIdx(c, v) :
             /\ \A k \in DOMAIN c.variants[v].fields[i].into :
                   c.variants[v].fields[i].into[k].t \in SeqToSet(c.opts.targets)
             /\ \A t \in {"A", "B"} : Cardinality(IntoMarks(c, v, i, t)) <= 1
+IntoWellDesignated(c) ==
+  /\ IntoDesignated(c)
+  /\ \A v \in 1..NVariants(c) : \A k \in DOMAIN c.opts.targets :
+        LET t == c.opts.targets[k] IN
+          IntoMode(c, v, t) = "convert" => c.variants[v].fields[IntoField(c, v, t)].ty = "P"
 
 GenOfMode(m) == IF m = "method" THEN GMethod ELSE IF m = "identity" THEN GOrig ELSE GFrom
 
